@@ -21,6 +21,7 @@ import (
 	"net/http/httptest"
 	"net/http/httptrace"
 	"net/textproto"
+	"os"
 	"sort"
 	"strconv"
 	"strings"
@@ -67,6 +68,7 @@ type c20xExchange struct {
 }
 
 type c20xCase struct {
+	XHist     []string       `json:"xhist,omitempty"`
 	X         string         `json:"x,omitempty"`
 	Fmt       []c20xTok      `json:"fmt,omitempty"`
 	Lines     []string       `json:"lines,omitempty"`
@@ -402,12 +404,16 @@ func c20xFeat(clause string, x *c20xExchange) map[string]any {
 }
 
 type c20xStats struct {
-	ran, skipped, compared, oracle, controls int64
+	ran, skipped, compared, oracle, controls, independent int64
 }
+
+// c20xRefs: for the exchanges that contact no upstream, the line parts a proxy + logger writes
+// that has served nothing before (client port abstracted), taken at the start of the process.
+type c20xRefs map[string][]string
 
 // c20xJudge compares what the logger wrote with the specification's line for what the client got.
 // want: format -> admissible lines (newline stripped, CPORT still abstract).
-func c20xJudge(x *c20xExchange, want map[string][]string, f *c20xFront, rig *c20xRig, ctl *c20xFront, st *c20xStats) {
+func c20xJudge(x *c20xExchange, want map[string][]string, f *c20xFront, rig *c20xRig, ctl *c20xFront, st *c20xStats, refs c20xRefs) {
 	o, skipped := f.play(x)
 	if skipped {
 		atomic.AddInt64(&st.skipped, 1)
@@ -478,6 +484,17 @@ func c20xJudge(x *c20xExchange, want map[string][]string, f *c20xFront, rig *c20
 			// the body net/http writes for a redirect is not prescribed: the size is what the client received
 			if format == "$response_status $response_body_size" {
 				admissible = []string{fmt.Sprintf("%d %d", o.status, o.bytes)}
+			} else if ref, ok := refs[x.ID]; ok && i < len(ref) {
+				// no value is prescribed, but the line is a function of this exchange alone: it is
+				// what a proxy that served nothing before wrote for it
+				atomic.AddInt64(&st.independent, 1)
+				if got := strings.ReplaceAll(parts[i], cport, "CPORT"); got != ref[i] {
+					verifx.Fail(rec, c20xFeat("history-dependent-line", x),
+						"format %q logged %q; the same exchange through a proxy that had served nothing before logged %q - something of an earlier request shows in this line\n%s",
+						format, parts[i], ref[i], desc)
+					return
+				}
+				continue
 			} else {
 				continue
 			}
@@ -625,6 +642,36 @@ func TestVerifC20Exchange(t *testing.T) {
 		workers = 1
 	}
 	var st c20xStats
+	byID := map[string]*c20xExchange{}
+	for i := range exchanges {
+		byID[exchanges[i].ID] = &exchanges[i]
+	}
+	// phase 0, before this process has proxied anything: what a pristine proxy + logger writes for
+	// the exchanges that contact no upstream
+	refs := c20xRefs{}
+	{
+		f0, err := c20xNewFront(rig, tbl, formats, true)
+		if err != nil {
+			t.Fatal(err)
+		}
+		for i := range exchanges {
+			x := &exchanges[i]
+			if x.Kind != "noroute" && x.Kind != "redirect" {
+				continue
+			}
+			o, skipped := f0.play(x)
+			if skipped || o.err != nil || o.done.panic != nil || strings.Count(o.line, "\n") != 1 {
+				continue // judged in the main phase
+			}
+			_, cport, _ := net.SplitHostPort(o.local)
+			parts := strings.Split(strings.TrimSuffix(o.line, "\n"), c20xSep)
+			for k := range parts {
+				parts[k] = strings.ReplaceAll(parts[k], cport, "CPORT")
+			}
+			refs[x.ID] = parts
+		}
+		f0.close()
+	}
 	var wg sync.WaitGroup
 	jobs := make(chan int, len(exchanges))
 	seed := int(verifx.Seed())
@@ -655,11 +702,50 @@ func TestVerifC20Exchange(t *testing.T) {
 			defer ctl.close()
 			for i := range jobs {
 				x := exchanges[i]
-				c20xJudge(&x, want[x.ID], f, rig, ctl, &st)
+				if len(replays) > 0 { // a recorded failure may need an earlier proxied request through the same proxy
+					warm := c20xExchange{ID: "warm-up", Kind: "proxied", Method: "GET", Path: "/t1/warm", Host: "front.example", Status: 200,
+						Framing: "length", Chunks: []int{10}, Raddr: "127.0.0.1:CPORT", Target: "backend:8080"}
+					f.play(&warm)
+				}
+				c20xJudge(&x, want[x.ID], f, rig, ctl, &st, refs)
 			}
 		}()
 	}
 	wg.Wait()
+	// histories: ONE proxy + logger serves the exchanges of each history one after the other
+	var nhist, nhx int64
+	if p := os.Getenv("VERIF_C20_XHIST"); p != "" && len(replays) == 0 {
+		hs, err := verifx.ReadCases[c20xCase]("VERIF_C20_XHIST")
+		if err != nil {
+			t.Fatal(err)
+		}
+		f, err := c20xNewFront(rig, tbl, formats, true)
+		if err != nil {
+			t.Fatal(err)
+		}
+		ctl, err := c20xNewFront(rig, tbl, formats, false)
+		if err != nil {
+			t.Fatal(err)
+		}
+		for _, h := range hs {
+			if len(h.XHist) == 0 {
+				continue
+			}
+			nhist++
+			for _, id := range h.XHist {
+				x, ok := byID[id]
+				if !ok {
+					verifx.Emit(map[string]any{"kind": "error", "msg": "history refers to unknown exchange " + id})
+					continue
+				}
+				xx := *x
+				c20xJudge(&xx, want[id], f, rig, ctl, &st, refs)
+				nhx++
+			}
+		}
+		f.close()
+		ctl.close()
+	}
 	kinds := map[string]int{}
 	for _, x := range exchanges {
 		kinds[x.Kind]++
@@ -670,5 +756,5 @@ func TestVerifC20Exchange(t *testing.T) {
 		samples = append(samples, fmt.Sprintf("%s %s%s %s info=%v status=%d %s %v => %v", x.Method, x.Path, c20xQ(x.Query), x.Kind, x.Info, x.Status, x.Framing, x.Chunks, want[x.ID]["$response_status $response_body_size"]))
 	}
 	verifx.Summary(map[string]any{"exchanges": len(exchanges), "ran": st.ran, "skipped_no_ipv6": st.skipped, "parts_compared": st.compared,
-		"oracle_disagreements": st.oracle, "controls": st.controls, "formats": len(formats), "kinds": kinds, "ipv6": ipv6 == 1, "samples": samples})
+		"oracle_disagreements": st.oracle, "controls": st.controls, "histories": nhist, "history_exchanges": nhx, "independent_parts": st.independent, "formats": len(formats), "kinds": kinds, "ipv6": ipv6 == 1, "samples": samples})
 }
